@@ -178,7 +178,7 @@ func runErrpred(c *Ctx) {
 	// the executor's Result holds exactly what the reflective call returned
 	if exec := p.MustRole("executor"); exec != nil {
 		ok := false
-		core.Instrs(exec, func(in ssa.Instruction) {
+		p.RegionInstrs(exec, func(in ssa.Instruction) {
 			if st, isSt := in.(*ssa.Store); isSt {
 				if fr, isF := core.AsFieldAddr(st.Addr); isF && fr.Owner == "Result" && fr.Field == "out" {
 					if cl, isC := st.Val.(*ssa.Call); isC && core.CalleeName(cl.Common()) == core.RVCall {
@@ -192,41 +192,164 @@ func runErrpred(c *Ctx) {
 		// the value returned after the call is that Result (not a derived one)
 		retOK := true
 		var rv ssa.CallInstruction
-		for _, ci := range core.Calls(exec, core.RVCall) {
+		for _, ci := range p.RegionCalls(exec, core.RVCall) {
 			rv = ci
 		}
-		for _, r := range core.Returns(exec) {
-			if rv == nil || !core.InstrDominates(rv, r) {
-				continue
+		var rvA ssa.Instruction
+		if rv != nil {
+			if as, _ := p.Anchors(rv, exec); len(as) == 1 {
+				rvA = as[0]
 			}
-			for _, v := range core.ReturnOperand(r, 0) {
-				ld, isLd := v.(*ssa.UnOp)
-				if !isLd {
-					retOK = false
-					continue
-				}
-				al, isAl := ld.X.(*ssa.Alloc)
-				if !isAl {
-					retOK = false
-					continue
-				}
-				// alloc must be assigned (transitively) from the literal whose out is the call result
-				good := !wholeStored(al) && storesRawCall(al)
-				for _, ref := range *al.Referrers() {
-					if st, isSt := ref.(*ssa.Store); isSt && st.Addr == ssa.Value(al) {
-						for _, src := range core.Sources(st.Val) {
-							if l2, ok2 := src.(*ssa.UnOp); ok2 {
-								if a2, ok3 := l2.X.(*ssa.Alloc); ok3 && !wholeStored(a2) && storesRawCall(a2) {
-									good = true
-								}
+		}
+		isRawLiteral := func(v ssa.Value) bool {
+			ld, isLd := v.(*ssa.UnOp)
+			if !isLd {
+				return false
+			}
+			al, isAl := ld.X.(*ssa.Alloc)
+			if !isAl {
+				return false
+			}
+			// alloc must be assigned (transitively) from the literal whose out is the call result
+			good := !wholeStored(al) && storesRawCall(al)
+			for _, ref := range *al.Referrers() {
+				if st, isSt := ref.(*ssa.Store); isSt && st.Addr == ssa.Value(al) {
+					for _, src := range core.Sources(st.Val) {
+						if l2, ok2 := src.(*ssa.UnOp); ok2 {
+							if a2, ok3 := l2.X.(*ssa.Alloc); ok3 && !wholeStored(a2) && storesRawCall(a2) {
+								good = true
 							}
 						}
 					}
 				}
-				if !good {
-					retOK = false
+			}
+			return good
+		}
+		nAfter := 0
+		for _, r := range core.Returns(exec) {
+			if rvA == nil || !(core.InstrDominates(rvA, r) || rvA == ssa.Instruction(r)) {
+				continue
+			}
+			nAfter++
+			for _, v := range core.ReturnOperand(r, 0) {
+				if isRawLiteral(v) {
+					continue
+				}
+				// through private steps (invoke / remember): every value that can be returned here is that literal — or
+				// the error Result of a step that did not reach the call
+				beforeCall := func(at ssa.Instruction) bool {
+					// `at` cannot execute once the reflective call has happened
+					if at.Parent() == rv.Parent() {
+						return !core.InstrDominates(rv, at) && !core.CanFollow(rv, at)
+					}
+					as, _ := p.Anchors(at, exec)
+					for _, a := range as {
+						if rvA != nil && (a == rvA || core.CanFollow(rvA, a)) && at.Parent() != rv.Parent() {
+							// the step runs after (or is) the step that makes the call: only fine if it is that very step
+							if a != rvA {
+								return false
+							}
+						}
+					}
+					return len(as) > 0
+				}
+				var walkLeaf func(lf ssa.Value, d int) bool
+				walkLeaf = func(lf ssa.Value, d int) bool {
+					if isRawLiteral(lf) {
+						return true
+					}
+					if d > 4 {
+						return false
+					}
+					switch x := lf.(type) {
+					case *ssa.Call:
+						cal := x.Common().StaticCallee()
+						if cal == nil || !p.InTarget(cal) {
+							return false
+						}
+						// an error-Result constructor (resultError(err)) on a path that never reached the call
+						if len(x.Common().Args) == 1 && strings.Contains(core.TypeStr(x.Common().Args[0].Type()), "error") && core.NamedOf(cal.Signature.Results().At(0).Type()) == "Result" {
+							return beforeCall(x)
+						}
+						if !p.PrivateHelper(cal) || cal.Signature.Results().Len() != 1 {
+							return false
+						}
+						for _, hr := range core.Returns(cal) {
+							for _, o := range core.ReturnOperand(hr, 0) {
+								for _, sv := range core.Sources(o) {
+									if !walkLeaf(sv, d+1) {
+										return false
+									}
+								}
+							}
+						}
+						return true
+					case *ssa.Parameter:
+						h := x.Parent()
+						if !p.PrivateHelper(h) {
+							return false
+						}
+						idx := -1
+						for i, q := range h.Params {
+							if q == x {
+								idx = i
+							}
+						}
+						sites := p.Callers(h)
+						if idx < 0 || len(sites) == 0 {
+							return false
+						}
+						for _, site := range sites {
+							for _, sv := range core.Sources(site.Common().Args[idx]) {
+								if !walkLeaf(sv, d+1) {
+									return false
+								}
+							}
+						}
+						return true
+					case *ssa.UnOp:
+						al, isAl := x.X.(*ssa.Alloc)
+						if !isAl {
+							return false
+						}
+						if wholeStored(al) {
+							// a variable: everything assigned to it
+							for _, ref := range *al.Referrers() {
+								if st, ok := ref.(*ssa.Store); ok && st.Addr == ssa.Value(al) {
+									for _, sv := range core.Sources(st.Val) {
+										if sv == ssa.Value(x) {
+											continue
+										}
+										if !walkLeaf(sv, d+1) {
+											return false
+										}
+									}
+								}
+							}
+							return true
+						}
+						// an error Result literal (sets only the resolution error) on a path that never reached the call
+						onlyErr := true
+						for _, ref := range *al.Referrers() {
+							if fa, ok := ref.(*ssa.FieldAddr); ok {
+								if fr, _ := core.AsFieldAddr(fa); fr.Field != "buildErr" {
+									onlyErr = false
+								}
+							}
+						}
+						return onlyErr && beforeCall(x)
+					}
+					return false
+				}
+				for _, sv := range core.Sources(v) {
+					if !walkLeaf(sv, 0) {
+						retOK = false
+					}
 				}
 			}
+		}
+		if nAfter == 0 {
+			retOK = false
 		}
 		c.R.Add("RESULTLIT", "executor|returns-that-result", "executor", p.Pos(exec.Pos()), retOK,
 			"after executing the function the executor returns the Result built from the call's outputs, unmodified", fmt.Sprintf("ok=%v", retOK))
